@@ -192,6 +192,9 @@ package tmconsensus
 //@ spec HKeys(hs iface, keys []gcrypto.PubKey) string reads E:Iface
 //@ spec HPows(hs iface, pows []uint64) string reads E:Int
 
+//@ iface HashScheme.Block(hs, h)
+//@   modifies nothing
+
 //@ iface HashScheme.PubKeys(hs, keys)
 //@   ensures result1 == nil ==> bytes(result0) == HKeys(hs, keys)
 
@@ -250,6 +253,7 @@ package tmconsensus
 
 // ---- C17/C05: the sparse form of a vote proof carries the view's height, round and one entry per target ----
 //@ iface gcrypto.CommonMessageSignatureProof.PubKeyHash(p)
+//@   ensures bytes(result) == pkhash(p)
 //@   modifies nothing
 
 //@ func PrevoteProof.AsSparse
@@ -267,3 +271,16 @@ package tmconsensus
 //@   modifies nothing
 //@   loop 1 invariant fresh(out.Proofs) && out.Height == p.Height && out.Round == p.Round &&
 //@       (forall h string :: (h in out.Proofs) == visited(1)[h]) && (forall h string :: visited(1)[h] ==> h in p.Proofs)
+
+// ---- signing content (C01, C05): thin wrappers over the signature scheme (buffer pool + one scheme call) ----
+// The signed bytes are a function of the vote target; the wrappers are trusted, the scheme itself is an interface.
+//@ spec precommitMsg(h mathint, r mathint, hash string) string
+//@ spec prevoteMsg(h mathint, r mathint, hash string) string
+//@ func PrecommitSignBytes
+//@   trusted
+//@   ensures result1 == nil ==> bytes(result0) == precommitMsg(vt.Height, vt.Round, vt.BlockHash)
+//@   modifies nothing
+//@ func PrevoteSignBytes
+//@   trusted
+//@   ensures result1 == nil ==> bytes(result0) == prevoteMsg(vt.Height, vt.Round, vt.BlockHash)
+//@   modifies nothing
